@@ -300,8 +300,18 @@ class SimFS:
             raise _err(errno.ENOENT, path)
         if node.kind == "d":
             raise _err(errno.EISDIR, path)
-        self.unlink_log.append((posixpath.normpath(path), node.ino, node.atime, node.mtime,
-                                len(node.data) if node.data is not None else 0, "unlink"))
+        seen = node
+        if node.kind == "l":
+            # (harness-side log) a removed link is logged with the stamps and size stat() showed for it: those of
+            # the file it named - that is what recency means for a cache entry that is a link
+            try:
+                t = self._lookup(path)
+                if t.kind == "f":
+                    seen = t
+            except OSError:
+                pass
+        self.unlink_log.append((posixpath.normpath(path), seen.ino, seen.atime, seen.mtime,
+                                len(seen.data) if seen.data is not None else 0, "unlink"))
         del parent.children[name]
         node.nlink -= 1
         now = self.clock.stamp()
